@@ -90,6 +90,30 @@ def run(tier, seed):
                             break
                 if not possible:
                     t.fail('SingleListGrader message rule', key, 'answer-level message shown although not every submitted and expected item earned credit: inputs %r matrix %r ordered=%s' % (perm, matrix, ordered))
+    # systematic corner of the formula: partial_credit x answer-level credit x {perfect, one item at half credit, one item wrong} submissions
+    for n_ans, ordered, pc, credit, flaw in itertools.product((1, 2, 3), (False, True), (False, True), (1, 0.8, 0.5, 0.25), ('perfect', 'half', 'wrong')):
+        answers = ['a%d' % i for i in range(n_ans)]
+        inputs = ['s%d' % i for i in range(n_ans)]
+        matrix = [[1 if r == c else 0 for c in range(n_ans)] for r in range(n_ans)]
+        if flaw != 'perfect':
+            matrix[n_ans - 1][n_ans - 1] = 0.5 if flaw == 'half' else 0
+        TableSub.table = {(answers[c], inputs[r]): matrix[r][c] for r in range(n_ans) for c in range(n_ans)}
+        g = lg.SingleListGrader(answers={'expect': answers, 'grade_decimal': credit, 'msg': 'overall'}, subgrader=TableSub(), ordered=ordered, partial_credit=pc)
+        item = sum(matrix[i][i] for i in range(n_ans)) / n_ans
+        if not pc and item < 1:
+            item = 0
+        want = credit * item
+        key = ('corner', n_ans, ordered, pc, credit, flaw)
+        try:
+            r = g(None, ', '.join(inputs))
+        except Exception as e:
+            t.fail('SingleListGrader credit formula', key, 'raised %s: %s' % (type(e).__name__, e))
+            continue
+        if abs(r['grade_decimal'] - want) > 1e-9 or r['ok'] != bc.AbstractGrader.grade_decimal_to_ok(want):
+            t.fail('SingleListGrader credit formula', key, '%d expected items, ordered=%s partial_credit=%s answer credit=%s, %s submission: grade %r ok %r, formula gives %r' % (
+                n_ans, ordered, pc, credit, flaw, r['grade_decimal'], r['ok'], want))
+        else:
+            t.ok('SingleListGrader credit formula', key)
     # length_error / missing_error
     sg = rtcheck.real_module('mitxgraders/stringgrader.py')
     for le, me in itertools.product([False, True], repeat=2):
